@@ -108,6 +108,11 @@ def run_case(case_id, pre_abs, msg_abs, seed, keep_xml=False):
         f = id_style_map(style)
         pre_abs, msg_abs = restyle(pre_abs, f), restyle(msg_abs, f)
         g.idf = f
+    from .render import ROID_STYLES, restyle_roid
+    new_roid = g.rng("roidstyle").choice(ROID_STYLES)
+    if new_roid:
+        pre_abs, msg_abs = restyle_roid(pre_abs, new_roid), restyle_roid(msg_abs, new_roid)
+        g.roid = lambda x: new_roid if x == "RO1" else x
     ro_xml = g.ro(pre_abs)
     # a completed running order refuses every message whatever it carries: there the message id may be unusable
     msg_xml = g.msg(msg_abs, loose_mid=any(c["tag"] == "mosromgrmeta" for c in pre_abs["root"]))
